@@ -20,6 +20,30 @@ TF = r"^radicle_node::service::Service::try_fetch$"
 OF = r"^radicle_node::service::io::Outbox::fetch$"
 
 
+def fetch_drop_sites(db, fn, depth=2):
+    """[(block of fn, function holding the retain, block of the retain)]: where fn drops entries of Service.fetching,
+    directly, through a helper method of Service, or through a helper that is handed `&mut self.fetching`."""
+    out = []
+    for bb, callee in rules.field_mut_calls(fn, "fetching", r"service::Service<"):
+        if (callee or "").endswith("HashMap::retain"):
+            out.append((bb, fn, bb))
+        elif callee and depth > 0:
+            h = db.one("^" + re.escape(callee) + "$")
+            if h is not None and h is not fn:
+                for b2, t2, c2 in db.calls(h):
+                    if (c2.get("n") or "").endswith("HashMap::retain") and t2[2] and re.match(r"^arg\d+$", nshow(peel(expr_operand(h, t2[2][0])))):
+                        out.append((bb, h, b2))
+    if depth > 0:
+        for bb, t, c in db.calls(fn):
+            n = c.get("n") or ""
+            if re.match(r"^radicle_node::service::Service::\w+$", n) and t[2] and nshow(peel(expr_operand(fn, t[2][0]))) == "arg1":
+                callee = db.one("^" + re.escape(n) + "$")
+                if callee is not None and callee is not fn:
+                    for _, rf, rb in fetch_drop_sites(db, callee, depth - 1):
+                        out.append((bb, rf, rb))
+    return out
+
+
 def run(ctx):
     db = ctx.db
     ctx.explanation = (
@@ -95,9 +119,9 @@ def run(ctx):
             muts.append((fn, bb, None))
         for bb, idx, s in rules.field_writes(fn, "fetching", r"service::Service<"):
             muts.append((fn, bb, idx))
-    rules.who(ctx, "who:Service.fetching", "mutation of Service.fetching", muts,
+    rules.who_inherit(ctx, "who:Service.fetching", "mutation of Service.fetching", muts,
               [TF, r"^radicle_node::service::Service::fetched$", r"^radicle_node::service::Service::disconnected$",
-               r"^radicle_node::service::Service::new$"])
+               r"^radicle_node::service::Service::new$"], db=db)
     ctx.floor("who:Service.fetching", len(muts), 2, "mutating uses of Service.fetching (entry, remove, retain)")
 
     # 3. attribution in Service::fetched
@@ -131,12 +155,16 @@ def run(ctx):
     if dc is None:
         ctx.violated("anchor:disconnected", "Service::disconnected not found")
     else:
+        # the places where `disconnected` drops fetch-table entries: a retain on Service.fetching in the function itself, or a
+        # call of a helper (method of Service) that does it
+        drops = fetch_drop_sites(db, dc)
         okr = False
-        for bb, t, c in db.calls(dc):
-            if (c.get("n") or "").endswith("HashMap::retain") and len(t[2]) > 1:
-                clo = peel(expr_operand(dc, t[2][1]))
+        for site_bb, rf, rb in drops:
+            t = rf["blocks"][rb]["t"]
+            if len(t[2]) > 1:
+                clo = peel(expr_operand(rf, t[2][1]))
                 if clo[0] == "agg" and isinstance(clo[1], dict) and clo[1].get("closure"):
-                    for f in flow.closure_family(db, dc, clo[1]["closure"]):
+                    for f in flow.closure_family(db, rf, clo[1]["closure"]):
                         # `true` (keep) is returned when fetching.from != remote
                         for b2, k, v in rules.ret_defs(f):
                             if k == "const" and v == 1:
@@ -149,7 +177,7 @@ def run(ctx):
         # in-flight fetches (Session.fetching) is only reset by to_disconnected()/removal, so dropping the table entries
         # while the session stays connected lets a second fetch of the same repository start
         g = graph(dc)
-        ret = rules.call_blocks(dc, r"HashMap::retain$")
+        ret = sorted(set(site_bb for site_bb, rf, rb in drops))
         down = rules.call_blocks(dc, r"session::Session::to_disconnected$") + \
             [bb for bb, t, c in db.calls(dc) if re.search(r"(HashMap|AddressBook|BTreeMap)::remove$", c.get("n") or "") and
              "sessions" in nshow(expr_operand(dc, t[2][0]))]
